@@ -316,21 +316,41 @@ func (x *Exec) builtin(s *State, f *Frame, sp callSpec, rt types.Type, instr ssa
 		case *SliceVal:
 			return v.Len, true
 		case *PtrVal:
-			// map or chan or pointer to array
-			if len(v.Alts) == 1 && v.Alts[0].Obj != 0 {
-				switch o := getPath(s.Heap[v.Alts[0].Obj], v.Alts[0].Path).(type) {
+			// map, chan or pointer to array: per live alternative
+			var r *Term
+			isMap := false
+			for _, a := range v.Alts {
+				if a.Obj == 0 || a.G.IsFalse() {
+					continue
+				}
+				var l *Term
+				switch o := getPath(s.Heap[a.Obj], a.Path).(type) {
 				case *MapObj:
-					return x.mapLen(s, v), true
+					isMap = true
 				case *ChanObj:
-					return o.Len, true
+					l = o.Len
 				case *ArrayVal:
-					return tb.Int64(int64(len(o.E))), true
+					l = tb.Int64(int64(len(o.E)))
+				}
+				if isMap {
+					break
+				}
+				if r == nil {
+					r = l
+				} else {
+					r = tb.Ite(a.G, l, r)
 				}
 			}
-			if x.ptrIsNil(v).IsTrue() {
+			if isMap {
+				return x.mapLen(s, v), true
+			}
+			if r == nil {
 				return tb.Int64(0), true
 			}
-			return x.mapLen(s, v), true
+			if nl := x.ptrIsNil(v); !nl.IsFalse() {
+				r = tb.Ite(nl, tb.Int64(0), r)
+			}
+			return r, true
 		case *ArrayVal:
 			return tb.Int64(int64(len(v.E))), true
 		}
